@@ -76,6 +76,28 @@ def main(n, seed):
                 bwd = Counter(({ADD: DELETE, DELETE: ADD}.get(c.typ, c.typ), c.key) for c in diff(n3, o3, with_unchanged=wu, hash_only=ho, meta_only=mo, shallow=sh, **kw))
                 if fwd != bwd and problem is None:
                     problem = f"diff(new, old) is not the mirror image of diff(old, new) (shallow={sh}): only forward {sorted((fwd - bwd).elements())[:3]}, only backward {sorted((bwd - fwd).elements())[:3]}"
+            # an index derived from the other one (DataIndex(old) copies the mapping, not the entries: unchanged entries -- directory
+            # entries included -- are the very same objects on both sides) and then edited below such a shared directory entry
+            if not wr and roots is None and problem is None and hl:  # hash-less directory entries, as build() leaves them
+                shared = build(fo, True)[0]
+                eo2 = dict(shared.iteritems())
+                derived = DataIndex(shared)
+                for k in sorted(eo2, key=len, reverse=True):
+                    if k not in en:
+                        del derived[k]
+                for k, e in en.items():
+                    both_dirs = k in eo2 and bool(e.meta and e.meta.isdir) and bool(eo2[k].meta and eo2[k].meta.isdir)
+                    if not both_dirs:
+                        derived[k] = e  # a directory present on both sides stays the very same entry object
+                ed = dict(derived.iteritems())
+                got2 = Counter((c.typ, c.key) for c in diff(shared, derived, with_unchanged=wu, hash_only=ho, meta_only=mo))
+                exp2 = Counter()
+                for k in set(eo2) | set(ed):
+                    t = _diff_entry(eo2.get(k), ed.get(k), hash_only=ho, meta_only=mo)
+                    if not (t == UNCHANGED and not wu):
+                        exp2[(t, k)] += 1
+                if got2 != exp2:
+                    problem = f"derived index sharing entry objects with the old one: unexpected={sorted((got2 - exp2).elements())[:3]} missing={sorted((exp2 - got2).elements())[:3]}"
             exp = Counter()
             for k in set(eo) | set(en):
                 if roots is not None and not any(k[: len(r)] == r for r in roots):
@@ -115,7 +137,7 @@ def main(n, seed):
             fails.append({"old": {"/".join(k): v for k, v in fo.items()}, "new": {"/".join(k): v for k, v in fn.items()},
                           "with_unchanged": wu, "hash_only": ho, "meta_only": mo, "with_renames": wr, "hashless": hl, "roots": roots, "problem": problem})
     return {"evaluations": n, "distinct_nontrivial": len(distinct), "failures": fails[:3], "n_failures": len(fails),
-            "bound": "keys over {a,b,c}, depth <= 3, <= 6 files per side, explicit hashed directory entries, metadata-only changes, entries without hash, hash_only / meta_only / renames / with_unchanged / roots; mirror-image check also with shallow=True and directories hashed on one side only"}
+            "bound": "keys over {a,b,c}, depth <= 3, <= 6 files per side, explicit hashed directory entries, metadata-only changes, entries without hash, hash_only / meta_only / renames / with_unchanged / roots; mirror-image check also with shallow=True and directories hashed on one side only; a derived index that shares entry objects with the old one"}
 
 
 if __name__ == "__main__":
